@@ -40,6 +40,11 @@ var configs = map[string]Config{
 	"c-aesni1":   {Name: "c-aesni1", Env: []string{"FORCE_SM4BLOCK_AESNI=1"}, Variant: "default"},
 	"c-purego":   {Name: "c-purego", Variant: "purego"},
 	"c-race":     {Name: "c-race", Variant: "race"},
+	// race-detector build on other dispatch tiers (shared cipher/AEAD objects differ per tier)
+	"c-race-nopclmul": {Name: "c-race-nopclmul", Env: []string{"GODEBUG=cpu.pclmulqdq=off"}, Variant: "race"},
+	"c-race-noaes":    {Name: "c-race-noaes", Env: []string{"GODEBUG=cpu.aes=off"}, Variant: "race"},
+	"c-race-noavx2":   {Name: "c-race-noavx2", Env: []string{"GODEBUG=cpu.avx2=off"}, Variant: "race"},
+	"c-race-aesni1":   {Name: "c-race-aesni1", Env: []string{"FORCE_SM4BLOCK_AESNI=1"}, Variant: "race"},
 }
 
 // AllTiers lists every dispatch configuration reachable on this host, in a fixed order.
@@ -66,16 +71,16 @@ type Violation struct {
 
 // Stats is what a worker reports at its end.
 type Stats struct {
-	Cases       int            `json:"cases"`
-	Evaluations int64          `json:"evaluations"`
-	Nontrivial  []uint64       `json:"nontrivial"` // hashes of distinct non-trivial case classes
-	Outcomes    []uint64       `json:"outcomes"`   // hashes of distinct observed outcomes
-	States      int64          `json:"states"`
-	Transitions int64          `json:"transitions"`
-	Traces      int64          `json:"traces"`
-	Samples     []any          `json:"samples"`
-	Capped      bool           `json:"capped"`
-	CapNote     string         `json:"cap_note,omitempty"`
+	Cases       int              `json:"cases"`
+	Evaluations int64            `json:"evaluations"`
+	Nontrivial  []uint64         `json:"nontrivial"` // hashes of distinct non-trivial case classes
+	Outcomes    []uint64         `json:"outcomes"`   // hashes of distinct observed outcomes
+	States      int64            `json:"states"`
+	Transitions int64            `json:"transitions"`
+	Traces      int64            `json:"traces"`
+	Samples     []any            `json:"samples"`
+	Capped      bool             `json:"capped"`
+	CapNote     string           `json:"cap_note,omitempty"`
 	Extra       map[string]int64 `json:"extra,omitempty"`
 }
 
@@ -742,18 +747,18 @@ func checkMain(p Property, tier string) int {
 
 	exhaustive := !total.Capped && crashes == 0
 	cov := map[string]any{
-		"evaluations":         total.Evaluations,
-		"distinct_nontrivial": len(nontrivial),
-		"rule":                p.Rule(),
-		"samples":             total.Samples,
-		"exhaustive":          exhaustive,
-		"cases":               total.Cases,
-		"distinct_outcomes":   len(outcomes),
-		"configurations":      cfgNames,
+		"evaluations":                   total.Evaluations,
+		"distinct_nontrivial":           len(nontrivial),
+		"rule":                          p.Rule(),
+		"samples":                       total.Samples,
+		"exhaustive":                    exhaustive,
+		"cases":                         total.Cases,
+		"distinct_outcomes":             len(outcomes),
+		"configurations":                cfgNames,
 		"evaluations_per_configuration": perCfg,
-		"worker_crashes":      crashes,
-		"known_finding_instances": nKnown,
-		"discarded_nondeterministic": nDiscarded,
+		"worker_crashes":                crashes,
+		"known_finding_instances":       nKnown,
+		"discarded_nondeterministic":    nDiscarded,
 	}
 	if total.States > 0 {
 		cov["states"] = total.States
